@@ -104,6 +104,16 @@ func run(cs vrt.Case) vrt.Obs {
 	r := vrt.Rand(p.Seed, "c19", p.Kind, p.Idx)
 	switch p.Kind {
 	case "tuples":
+		if p.Idx%4 == 3 {
+			// every fourth batch: four goroutines parse (and keep, and re-check) URLs of their own at the same time
+			vrt.Parallel(&o, 4, func(g int, po *vrt.Obs) {
+				pc := &ctx{o: po, seen: map[string]int{}}
+				runTuples(pc, vrt.Rand(p.Seed, "c19-par", p.Idx, g), p.N/4)
+				po.Count("tuple_batches_parsed_while_other_goroutines_were_parsing", 1)
+			})
+			o.Sample = map[string]any{"kind": "tuples-concurrent", "goroutines": 4, "n_each": p.N / 4}
+			break
+		}
 		runTuples(c, r, p.N)
 	case "raw":
 		runRaw(c, r, p.N)
